@@ -119,7 +119,7 @@ Record result := mkResult { r_done : bool; r_err : err_kind }.
 
 Definition persist (m : machine) : M bool :=
   ok <- pop_store ;;
-  emit (EPersist (m_cur m) (m_data m)) ;;;
+  emit (EPersist (m_cur m) (m_data m) ok) ;;;
   ret ok.
 
 Section Engine.
